@@ -2,6 +2,7 @@ package c19
 
 import (
 	"fmt"
+	"os"
 	"path/filepath"
 	"runtime"
 	"slices"
@@ -38,19 +39,22 @@ import (
 type clusterCfg struct {
 	N          int
 	BlockTime  time.Duration
-	SRIH       bool  // StateRootInHeader: prepare requests carry and check the state root
-	ExtPool    bool  // payloads pass a real extpool.Pool (witness, height, sender, dedup) first, as in network.Server
-	MaxTx      int   // MaxTransactionsPerBlock (0 = default)
-	MaxSysFee  int64 // MaxBlockSystemFee (0 = default)
+	SRIH       bool          // StateRootInHeader: prepare requests carry and check the state root
+	ExtPool    bool          // payloads pass a real extpool.Pool (witness, height, sender, dedup) first, as in network.Server
+	MaxTx      int           // MaxTransactionsPerBlock (0 = default)
+	MaxSysFee  int64         // MaxBlockSystemFee (0 = default)
+	Extra      int           // committee members beyond the N validators; they run nodes too (watch-only until elected)
+	MaxTPB     time.Duration // MaxTimePerBlock (0 = off): empty proposals are postponed until a transaction arrives
 	KeyLabel   string
 	WalletsDir string
 }
 
-func (c clusterCfg) F() int { return (c.N - 1) / 3 }
-func (c clusterCfg) M() int { return c.N - c.F() }
+func (c clusterCfg) F() int     { return (c.N - 1) / 3 }
+func (c clusterCfg) M() int     { return c.N - c.F() }
+func (c clusterCfg) Nodes() int { return c.N + c.Extra }
 
 func (c clusterCfg) String() string {
-	return fmt.Sprintf("n=%d srih=%v extpool=%v maxtx=%d maxsysfee=%d", c.N, c.SRIH, c.ExtPool, c.MaxTx, c.MaxSysFee)
+	return fmt.Sprintf("n=%d+%d srih=%v extpool=%v maxtx=%d maxsysfee=%d maxtpb=%s", c.N, c.Extra, c.SRIH, c.ExtPool, c.MaxTx, c.MaxSysFee, c.MaxTPB)
 }
 
 // blockEvent is one entry of the block event log: an AddBlock attempt made by
@@ -79,6 +83,7 @@ type commitRec struct {
 
 // prepRec is a PrepareRequest seen at the sender's Broadcast boundary.
 type prepRec struct {
+	Node      int // the node that sent it
 	Validator int
 	Height    uint32
 	View      byte
@@ -101,26 +106,27 @@ type txRec struct {
 
 // recorder is the event log of one schedule attempt. Only the harness writes to it.
 type recorder struct {
-	mu       sync.Mutex
-	seq      int64
-	phase    atomic.Int32
-	events   []blockEvent
-	commits  []commitRec
-	preps    []prepRec
-	txs      map[util.Uint256]*txRec
-	txOrder  []util.Uint256
-	panics   []string
-	fatals   []string
-	msgTypes map[string]int64
-	maxView  map[uint32]byte // per height, highest view seen in any payload
-	logs     map[string]int64
-	warns    []string
+	mu          sync.Mutex
+	seq         int64
+	phase       atomic.Int32
+	events      []blockEvent
+	commits     []commitRec
+	preps       []prepRec
+	txs         map[util.Uint256]*txRec
+	txOrder     []util.Uint256
+	panics      []string
+	fatals      []string
+	msgTypes    map[string]int64
+	maxView     map[uint32]byte          // per height, highest view seen in any payload
+	commitViews map[uint32]map[byte]bool // per height, the views commits were sent in
+	logs        map[string]int64
+	warns       []string
 	// extpool verdicts
 	xpRejects map[string]int64
 }
 
 func newRecorder() *recorder {
-	return &recorder{txs: map[util.Uint256]*txRec{}, msgTypes: map[string]int64{}, maxView: map[uint32]byte{}, logs: map[string]int64{}, xpRejects: map[string]int64{}}
+	return &recorder{txs: map[util.Uint256]*txRec{}, msgTypes: map[string]int64{}, maxView: map[uint32]byte{}, commitViews: map[uint32]map[byte]bool{}, logs: map[string]int64{}, xpRejects: map[string]int64{}}
 }
 
 func (r *recorder) nextSeq() int64 { r.seq++; return r.seq }
@@ -204,6 +210,7 @@ func protoCfg(c clusterCfg, ks []*keys.PrivateKey) func(*config.Blockchain) {
 			StateRootInHeader:           c.SRIH,
 			MaxTransactionsPerBlock:     uint16(c.MaxTx),
 			MaxBlockSystemFee:           c.MaxSysFee,
+			MaxTimePerBlock:             c.MaxTPB,
 			MemPoolSize:                 5000,
 			Hardforks:                   nil, // all stable hardforks from genesis
 		}
@@ -252,15 +259,17 @@ func (q commitQueue) Put(b *block.Block) error {
 	return q.n.bq.Put(b)
 }
 
+var debugLogs = os.Getenv("C19_DEBUG") != ""
+
 // logCore collects what the consensus service and dBFT log.
 type logCore struct {
 	n   *node
 	rec *recorder
 }
 
-func (c *logCore) Enabled(l zapcore.Level) bool        { return l >= zapcore.InfoLevel }
-func (c *logCore) With([]zapcore.Field) zapcore.Core   { return c }
-func (c *logCore) Sync() error                         { return nil }
+func (c *logCore) Enabled(l zapcore.Level) bool      { return l >= zapcore.InfoLevel }
+func (c *logCore) With([]zapcore.Field) zapcore.Core { return c }
+func (c *logCore) Sync() error                       { return nil }
 func (c *logCore) Check(e zapcore.Entry, ce *zapcore.CheckedEntry) *zapcore.CheckedEntry {
 	if c.Enabled(e.Level) {
 		return ce.AddCore(e, c)
@@ -277,6 +286,9 @@ func (c *logCore) Write(e zapcore.Entry, fields []zapcore.Field) error {
 			f.AddTo(enc)
 		}
 		c.rec.warns = append(c.rec.warns, fmt.Sprintf("node%d %s %s %v", c.n.idx, e.Level, e.Message, enc.Fields))
+		if debugLogs {
+			fmt.Printf("LOG node%d h=%d %s %s %v\n", c.n.idx, c.n.bc.BlockHeight(), e.Level, e.Message, enc.Fields)
+		}
 	}
 	return nil
 }
@@ -296,14 +308,16 @@ func (h fatalHook) OnWrite(ce *zapcore.CheckedEntry, _ []zapcore.Field) {
 
 func newCluster(t testing.TB, cfg clusterCfg, net *simnet) (*cluster, error) {
 	cl := &cluster{t: t, cfg: cfg, net: net, rec: newRecorder(), magic: netmode.UnitTestNet}
-	cl.keys = sortedKeys(cfg.KeyLabel, cfg.N)
+	// all committee keys in key order: the first N are the standby validators,
+	// node index == validator index as long as the standby set is in office
+	cl.keys = sortedKeys(cfg.KeyLabel, cfg.Nodes())
 	cl.pcfg = protoCfg(cfg, cl.keys)
 	pubs := make(keys.PublicKeys, cfg.N)
-	for i, k := range cl.keys {
+	for i, k := range cl.keys[:cfg.N] {
 		pubs[i] = k.PublicKey()
 	}
 	var accs []*wallet.Account
-	for _, k := range cl.keys {
+	for _, k := range cl.keys[:cfg.N] {
 		a := wallet.NewAccountFromPrivateKey(k)
 		if err := a.ConvertMultisig(smartcontract.GetDefaultHonestNodeCount(cfg.N), pubs); err != nil {
 			return nil, err
@@ -312,7 +326,7 @@ func newCluster(t testing.TB, cfg clusterCfg, net *simnet) (*cluster, error) {
 	}
 	cl.multi = neotest.NewMultiSigner(accs...)
 	net.attach(cl)
-	for i := 0; i < cfg.N; i++ {
+	for i := 0; i < cfg.Nodes(); i++ {
 		nd := &node{idx: i, cl: cl, bqDone: make(chan struct{})}
 		bc, err := openLedger(cl.pcfg)
 		if err != nil {
@@ -412,6 +426,31 @@ func (cl *cluster) heights() []uint32 {
 	return hs
 }
 
+// validatorNodes marks the nodes whose key is among the validators of the
+// next block, as the highest ledger sees it.
+func (cl *cluster) validatorNodes() []bool {
+	hs := cl.heights()
+	best := 0
+	for i := range hs {
+		if hs[i] > hs[best] {
+			best = i
+		}
+	}
+	r := make([]bool, len(cl.nodes))
+	vals, err := cl.nodes[best].bc.GetNextBlockValidators()
+	if err != nil {
+		return r
+	}
+	for _, v := range vals {
+		for i, k := range cl.keys {
+			if v.Equal(k.PublicKey()) {
+				r[i] = true
+			}
+		}
+	}
+	return r
+}
+
 func maxU32(v []uint32) uint32 { return slices.Max(v) }
 func minU32(v []uint32) uint32 { return slices.Min(v) }
 
@@ -426,19 +465,19 @@ func (nd *node) broadcast(p *npayload.Extensible) {
 		return
 	}
 	raw := w.Bytes()
-	nd.cl.observePayload(nd.idx, raw)
+	typ, view := nd.cl.observePayload(nd.idx, raw)
 	for j := range nd.cl.nodes {
 		if j == nd.idx {
 			continue
 		}
 		dst := nd.cl.nodes[j]
-		nd.cl.net.send(nd.idx, j, "payload", func() { dst.onExtensibleRaw(raw) })
+		nd.cl.net.send(nd.idx, j, "payload", typ, view, func() { dst.onExtensibleRaw(raw) })
 	}
 }
 
 // observePayload decodes the payload the way a receiver would, for statistics
 // and for the inclusion oracle (prepare requests).
-func (cl *cluster) observePayload(from int, raw []byte) {
+func (cl *cluster) observePayload(from int, raw []byte) (string, int) {
 	p := consensus.NewPayload(cl.magic, cl.cfg.SRIH)
 	r := io.NewBinReaderFromBuf(raw)
 	p.DecodeBinary(r)
@@ -447,15 +486,22 @@ func (cl *cluster) observePayload(from int, raw []byte) {
 	defer rec.mu.Unlock()
 	if r.Err != nil {
 		rec.msgTypes["undecodable"]++
-		return
+		return "undecodable", -1
 	}
 	rec.msgTypes[p.Type().String()]++
 	if p.ViewNumber() > rec.maxView[p.Height()] {
 		rec.maxView[p.Height()] = p.ViewNumber()
 	}
-	if p.Type().String() == "PrepareRequest" {
-		rec.preps = append(rec.preps, prepRec{Validator: int(p.ValidatorIndex()), Height: p.Height(), View: p.ViewNumber(), Txs: slices.Clone(p.GetPrepareRequest().TransactionHashes())})
+	if p.Type().String() == "Commit" {
+		if rec.commitViews[p.Height()] == nil {
+			rec.commitViews[p.Height()] = map[byte]bool{}
+		}
+		rec.commitViews[p.Height()][p.ViewNumber()] = true
 	}
+	if p.Type().String() == "PrepareRequest" {
+		rec.preps = append(rec.preps, prepRec{Node: from, Validator: int(p.ValidatorIndex()), Height: p.Height(), View: p.ViewNumber(), Txs: slices.Clone(p.GetPrepareRequest().TransactionHashes())})
+	}
+	return p.Type().String(), int(p.ViewNumber())
 }
 
 func (nd *node) onExtensibleRaw(raw []byte) {
@@ -514,7 +560,7 @@ func (nd *node) relayBlock(b *block.Block) {
 			continue
 		}
 		dst := nd.cl.nodes[j]
-		nd.cl.net.send(nd.idx, j, "block", func() { dst.onBlockRaw(raw) })
+		nd.cl.net.send(nd.idx, j, "block", "", -1, func() { dst.onBlockRaw(raw) })
 	}
 }
 
@@ -549,11 +595,11 @@ func (nd *node) requestTx(hs ...util.Uint256) {
 			continue
 		}
 		peer := nd.cl.nodes[j]
-		nd.cl.net.send(nd.idx, j, "getdata", func() {
+		nd.cl.net.send(nd.idx, j, "getdata", "", -1, func() {
 			for _, h := range want {
 				if tx, ok := peer.bc.GetMemPool().TryGetValue(h); ok {
 					raw := tx.Bytes()
-					nd.cl.net.send(peer.idx, nd.idx, "tx", func() { nd.onTxRaw(raw, true) })
+					nd.cl.net.send(peer.idx, nd.idx, "tx", "", -1, func() { nd.onTxRaw(raw, true) })
 				}
 			}
 		})
